@@ -243,6 +243,12 @@ def layout_metadata(facts):
         sc = E.canon(cases[-1][1])
         arms = dict(cases[-1][2])
         z = arms.get(0)
+        scx = E.strip_casts(cases[-1][1])
+        if isinstance(scx, tuple) and scx[0] == "bin" and scx[1] in ("Eq", "Ne") and E.is_c(E.strip_casts(scx[3]), 0):
+            # `if type == 0 { .. } else { .. }`: the STREAMINFO arm is the true arm of `== 0` (the false arm of `!= 0`)
+            z = arms.get(1 if scx[1] == "Eq" else 0)
+            arms = {0: z, "else": arms.get(0 if scx[1] == "Eq" else 1)}
+            cases = cases[:-1] + [(cases[-1][0], cases[-1][1], [(0, z), ("else", arms["else"])])]
         okt = ("BitAnd 127" in sc or "127 BitAnd" in sc) and z is not None and [x[0] for x in z] == ["sub"] and z[0][1] == "stream_info"
         other = [v for l, v in cases[-1][2] if l != 0]
         okt = okt and other and all([x[0] for x in v] == ["bytes"] for v in other)
@@ -259,9 +265,13 @@ def layout_frame_header(facts):
     toks = rtoks(ev)
     kinds = [x[0] for x in toks]
     want = ["bitsblock", "case", "sub", "sub", "bytes"]
-    t.row(kinds == want, pc.id, "order", "frame header reader sequence is %s; expected %s" % (kinds, want), {"sequence": kinds},
+    # the coded number is read once per blocking mode (a case of two reads) or once for both (one read, the variant chosen
+    # afterwards)
+    want2 = ["bitsblock", "sub", "sub", "sub", "bytes"]
+    okk = kinds == want or (kinds == want2 and toks[1][1] == "utf8_code")
+    t.row(okk, pc.id, "order", "frame header reader sequence is %s; expected %s" % (kinds, want), {"sequence": kinds},
           pc.loc())
-    if kinds != want:
+    if not okk:
         return [t.rr]
     bb = toks[0][1]
     bw = widths(bb)
@@ -305,9 +315,12 @@ def layout_frame_header(facts):
         t.row(c is not None and rd(c[1][0]) == [ids[4]], pc.id, "route(size-code)", "the 3-bit code is not the sample-size code")
         # coded number: blocking bit 0 -> Frame(n as u32), else StartSample(n)
         cs = toks[1]
-        arms = dict(cs[2])
-        okn = rd(cs[1]) == [ids[0]] and all(a in arms and [x[0] for x in arms[a]] == ["sub"] and arms[a][0][1] == "utf8_code"
-                                            for a in arms) and len(arms) == 2
+        if cs[0] == "sub":
+            okn = cs[1] == "utf8_code"
+        else:
+            arms = dict(cs[2])
+            okn = rd(cs[1]) == [ids[0]] and all(a in arms and [x[0] for x in arms[a]] == ["sub"] and arms[a][0][1] == "utf8_code"
+                                                for a in arms) and len(arms) == 2
         t.row(okn, pc.id, "coded-number", "the coded number is not read by utf8_code in both blocking modes")
         so = calls.get("FrameHeader::set_frame_offset")
         oko = False
@@ -327,6 +340,11 @@ def layout_frame_header(facts):
                     zero_arm = 1
                 elif sc[0] == "bin" and sc[1] == "Ne" and E.is_c(E.strip_casts(sc[3]), 0):
                     zero_arm = 0
+                elif rd(sc) == [ids[0]] and sc[0] != "bin":
+                    # `match blocking_bit { 0 => .., _ => .. }`: the arm labelled 0
+                    for l in vs:
+                        if l == 0 or (isinstance(l, tuple) and 0 in l):
+                            zero_arm = l
                 oko = oko and zero_arm is not None and flat.get(zero_arm) == "Frame"
         t.row(oko, pc.id, "blocking-bit", "blocking bit 0 does not select FrameOffset::Frame / 1 StartSample")
     fs = calls.get("FrameHeader::from_specs")
@@ -663,6 +681,19 @@ def layout_params_residual(facts):
     toks = rtoks(ev)
     okr = len(toks) == 1 and toks[0][0] == "loop" and toks[0][1][0] == "range" and E.canon(toks[0][1][2]) == "0" \
         and E.canon(toks[0][1][3]) == "arg2" and [x[0] for x in toks[0][2]] == ["bits"] and E.canon(toks[0][2][0][1]) == "arg1"
+    if not okr and len(toks) == 1 and toks[0][0] == "loop" and toks[0][1][0] == "while":
+        # `while out.len() < size { read one field; out.push(..) }` with `out` freshly created: one read per element
+        cnd = E.strip_casts(toks[0][1][2])
+        loops = [e for e in ev if e[0] == "loop"]
+        if isinstance(cnd, tuple) and cnd[0] == "bin" and cnd[1] == "Lt" and E.canon(cnd[3]) == "arg2" \
+                and E.strip_casts(cnd[2])[0] == "len" and len(loops) == 1:
+            vec = E.strip_casts(cnd[2])[1]
+            body = loops[0][2]
+            pushes = [e for e in body if e[0] == "push" and E.canon(e[1]) == E.canon(vec)]
+            fresh = isinstance(E.strip_casts(vec), tuple) and E.strip_casts(vec)[0] == "call" \
+                and re.search(r"Vec::<.*>::(new|with_capacity)$", E.strip_casts(vec)[1]) is not None
+            okr = fresh and len(pushes) == 1 and not any(e[0] in ("loop", "case") for e in body) \
+                and [x[0] for x in toks[0][2]] == ["bits"] and E.canon(toks[0][2][0][1]) == "arg1"
     t.row(okr, rs.id, "raw-samples", "raw_samples does not read `size` fields of `bits_per_sample` bits")
     u = [c for c in ctx.calls if c[0].endswith("u_to_i")]
     t.row(bool(u) and E.canon(u[0][1][1]) == "arg1", rs.id, "raw-samples-signed", "raw samples are not sign-extended from "
